@@ -17,13 +17,14 @@ def run_prop(ctx, prop, rule, min_cells=None, require=None):
     if not q:
         # thorough: the same sweep with the repository crates compiled under AddressSanitizer
         asan = ctx.build_harness_asan("clientsim", ["clientsim"])["clientsim"]
-        os.environ.setdefault("ASAN_OPTIONS", "halt_on_error=1:detect_leaks=0")
+        # (the harness leaks its vector-kind names on purpose; leak checking is not what this run is for)
+        ctx.env["ASAN_OPTIONS"] = "halt_on_error=1:detect_leaks=0"
         a3, v3a, _s3 = client.sweep(ctx, asan, prop, 2000000, 2)
         asan_info = {"evaluations": a3["evaluations"], "shards_lost": a3["shards_lost"]}
         ctx.log("ASan sweep: %s" % asan_info)
         v2 = v2 + v3a
         if a3["shards_lost"]:
-            v2.append({"sig": "asan-run-died", "detail": "%d shards of the AddressSanitizer build did not finish (see log)" % a3["shards_lost"], "replay": ""})
+            asan_info["inconclusive"] = "%d shards of the AddressSanitizer build did not finish (no sanitizer report; see log)" % a3["shards_lost"]
     cdrv = client.build_cdriver(ctx, sanitize=True)
     blur = (a1["blur_ns"] or [1000])[0]
     n3, v3, info = client.c_parity(ctx, rel, cdrv, prop, 300000 if q else 1000000, [prop], blur)
@@ -42,6 +43,8 @@ def run_prop(ctx, prop, rule, min_cells=None, require=None):
     cells = dict(a1["cells"])
     for k, v in a2["cells"].items():
         cells[k] = cells.get(k, 0) + v
+    if asan_info and asan_info.get("inconclusive"):
+        inconclusive = asan_info["inconclusive"]
     if min_cells and len(cells) < min_cells:
         inconclusive = "only %d generator cells reached (expected at least %d)" % (len(cells), min_cells)
     if require:
